@@ -639,6 +639,7 @@ def corpus_cases(ctx, rng):
                  {'n_src': 2, 'k_other': 3, 'n_needed': 2, 'fixed': [True, False, False], 'order': 2, 'regime': 'stable', 'on_grid': False, 'n_ds': 2},
                  {'n_src': 3, 'k_other': 2, 'n_needed': 1, 'fixed': [False, False], 'order': 0, 'regime': 'stable', 'on_grid': False, 'n_ds': 1}):
         out.append(gen_case(ctx, rng, spec))
+        out[-1]['probe'] = True
     return out
 
 
@@ -666,7 +667,7 @@ def enumerated_specs():
 
 def process(ctx, cases, tag):
     exprs, impls = [], []
-    for c in cases:
+    for ci, c in enumerate(cases):
         ctx.case({'decls': c['decls'], 'groups': c['groups'], 'vec': c['vec'], 'pairs': c['datasets'][0]['pairs']},
                  nontrivial=(len(c['vec']) >= 2 or c['n_src'] >= 2))
         try:
@@ -680,7 +681,7 @@ def process(ctx, cases, tag):
         if isinstance(lay, dict):
             n = fd_predicates(ctx, c, W, lay)
             lay['glen'] = n
-            if c.get('probe', True):
+            if ctx.thorough() or c.get('probe') or ci % 3 == 0:
                 history_probes(ctx, c, W)
         impls.append(lay)
         exprs.append(model_expr(c))
@@ -718,6 +719,8 @@ def run(ctx):
     specs = al + specs
     for s in specs:
         cases.append(gen_case(ctx, rng, dict(s)))
+        if 'assign' in s:
+            cases[-1]['probe'] = True
     n_random = ctx.budget(40, 700)
     for _ in range(n_random):
         cases.append(gen_case(ctx, rng))
